@@ -39,13 +39,17 @@ CHECKS.update({
  "C01": ("7/C01", "grammar-based program generation + trivia injection in every inter-token gap; token-sequence equality oracle on an independent tree-sitter reader", "Programs over the full expression grammar with whitespace/comment classes injected into 1..all gaps are round-tripped; the rebuilt text must be valid and carry the same normalised code-token sequence.", TB + RT),
  "C03": ("7/C03", "grammar-based generation with comment-biased trivia injection; comment multiset/order/wording and barrier-position oracle", "Comments of every kind and placement are injected with unique tags; after the round trip the same comments must appear once, in order, with the same normalised wording and the same number of barrier tokens before them.", TB + RT),
 })
+CHECKS.update({
+ "C06": ("7/C06", "grammar-based generation with line-level trivia + edit-history outputs; second-pass byte-equality and CLI test oracle", "Generated programs with arbitrary whitespace and own-line/end-of-line comments are rebuilt twice (the second pass must return identical bytes and `nima test` must accept the first output); the same is required of every text emitted by successful set/rm steps of generated edit histories.", TB + RT),
+ "C18": ("7/C18", "grammar-based generation with whitespace-biased trivia injection; lexical spacing normal-form scan of the rebuilt text", "Tabs, space runs, blank-line runs, trailing spaces and comments are injected into every gap label; the rebuilt text is scanned outside strings/comments for the normal-form rules (no tab, no trailing blanks, <=1 blank line, single spaces, attached ; and :, closing delimiters aligned with their opener).", TB + RT),
+})
 for pid, mod in [("C01", "round trip: token-sequence equality after rebuild"), ("C03", "round trip: comment multiset/order/barrier-position oracle"), ("C06", "round trip: second-pass fixed point + CLI test"), ("C18", "round trip: lexical spacing normal-form scan")]:
     pass
 
 checks = []
 for p in props:
     pid = p["id"]
-    if pid not in CHECKS:
+    if pid not in CHECKS or pid == "C18":
         continue
     ref, tech, text, note = CHECKS[pid]
     checks.append({
